@@ -103,6 +103,7 @@ class Gen:
         self.need_ext = False
         self.glossary = glossary
         self.cref = False
+        self.nodes_left = 250       # bounds the size of a document (nesting x branching is exponential)
         self.theorems = []
         self.mid = 0
         self.safe_points = []       # offsets where a fault construct may be inserted (between nodes, brace level 0)
@@ -197,7 +198,8 @@ class Gen:
 
     def node(self, allow_par=True):
         r = self.rnd
-        if self.depth >= self.max_depth:
+        self.nodes_left -= 1
+        if self.depth >= self.max_depth or self.nodes_left <= 0:
             return self.word()
         k = r.choice(self.pool)
         if self.in_detached and k in ('footnote', 'caption', 'footcite'):
@@ -852,11 +854,13 @@ GLSDEFS = ('\\gls@defglossaryentry{ylab}%\n{%\nname={yglsname},%\ntext={yglstext
 
 
 def random_document(rnd, size=None, lang='en', kinds=None, max_depth=5, glossary_file=None, theorems=True,
-                    end_pressure=None, pack='*,.yvm.ext', preamble_extra='', preamble=True, cref_file=None):
+                    end_pressure=None, pack='*,.yvm.ext', preamble_extra='', preamble=True, cref_file=None,
+                    max_nodes=250):
     pk = pkgs_of(pack)
     if 'glossaries' not in pk:
         glossary_file = None
     g = Gen(rnd, lang=lang, kinds=kinds, max_depth=max_depth, glossary=bool(glossary_file), pkgs=pk)
+    g.nodes_left = max_nodes
     g.w(preamble_extra)
     if preamble:
         g.w(PREAMBLE)
